@@ -124,6 +124,10 @@ class C01(Prop):
       else:
         case = leaf_case(rng, tier)
         dd = case['dev']
+        if dd['cls'] == 'GDevice' and rng.random() < 0.4:      # degree 4-5, signed lower-order coefficients (the cost may go negative)
+          dd['prm']['cost_coeffs'] = gen_fnx.rich_coeffs(rng, dd['n'], [F(x) for x in dd['lb']], [F(x) for x in dd['hb']])
+        if dd['cls'] == 'CDevice2' and rng.random() < 0.3:     # 4-5 contiguous cumulative ranges
+          gen_fnx.wide_cbounds(rng, dd)
         if rng.random() < ((0.8 if gen.fn_has(dd['prm']['f'], 'demand') else 0.5) if dd['cls'] == 'ADevice' else 0.2):
           make_ints(rng, case)        # integer-typed flows
         cls = case['dev']['cls']
@@ -143,7 +147,7 @@ class C01(Prop):
     """ADevice whose preference function IS TemporalVariance / CobbDouglas / InformationEntropy (top level) on a strictly positive box
     (entropy: half of them with slots of either sign, |r| >= 1/2): TemporalVariance gets T2 ops against the exact rational model
     (`fnnd.*`), all three the transcription oracle of the analytic gradient, plus the finite-difference oracle every fnx case has."""
-    n = rng.randint(1, 8)
+    n = rng.choice([9, 12]) if rng.random() < 0.25 else rng.randint(1, 8)      # nothing bounds the horizon of these classes either
     kind = rng.choice(['tvar', 'tvar', 'cobb', 'entropy'])
     lb = [dy(rng, Fraction(1, 2), 2) for _ in range(n)]; hb = [a + dy(rng, 0, 3) for a in lb]
     if kind == 'entropy' and rng.random() < 0.5:
